@@ -57,7 +57,8 @@ def generate(chk, prop, tier, seed):
     if prop == "C04":
         # a continuation inside the prefix of a statement (behind the label, inside / behind 'name:'), labelled and named constructs;
         # every layout edit on every subroutine / function header variant
-        for cfg, fam in (("Perturb_c04l_%s.cfg" % ("quick" if tier == "quick" else "thorough"), "exh-prefix-breaks"), ("Perturb_c04u_quick.cfg", "exh-unit-headers")):
+        for cfg, fam in (("Perturb_c04l_%s.cfg" % ("quick" if tier == "quick" else "thorough"), "exh-prefix-breaks"), ("Perturb_c04u_quick.cfg", "exh-unit-headers"),
+                         ("Perturb_c04j_quick.cfg", "exh-joined-variants")):
             r = tlc.run("MCPerturb.tla", cfg, timeout=20000)
             if not r.ok():
                 raise MachineryError("TLC failed on %s: %s %s" % (cfg, r.invariant_violated, r.error))
@@ -70,6 +71,10 @@ def generate(chk, prop, tier, seed):
                 if fam == "exh-prefix-breaks":
                     o = b["out"][e["pos"] - 1] if e["pos"] <= len(b["out"]) else None
                     if not (e["t"] == "brk" and e["a"] in (8, 9) and o and ((o["l"] and o["k"] != "dol") or (o["n"] and o["k"] not in ("end", "endu", "enddo")))):
+                        continue
+                elif fam == "exh-joined-variants":
+                    # every statement variant on one line with the statement before / behind it (an IF-THEN among them)
+                    if not any(x["v"] > 1 and x["k"] == "s" for x in b["out"][max(0, e["pos"] - 1):e["pos"] + 1]):
                         continue
                 elif e["pos"] != 1 and e["t"] != "case":
                     continue
